@@ -39,6 +39,7 @@ PARTIAL = []
 
 MAX_JOBS = min(6, int(os.environ.get('VERIF_JOBS', '6')))
 CASES_PER_TU = 220
+VIEW_WEIGHT = 6
 
 
 def fmt(l):
@@ -371,6 +372,87 @@ REFS['shape_pad'] = Ref(
 
 
 
+def _gen_slice1(rng, n):
+    a = rng.randrange(n); b = rng.randint(a + 1, n)
+    sl = [None if rng.random() < 0.3 else a, None if rng.random() < 0.3 else b]
+    if rng.random() < 0.5:
+        sl.append(None if rng.random() < 0.2 else rng.randint(1, 3))
+    return sl
+
+
+REFS['shape_slice'] = Ref(
+    lambda v: _np_shape(lambda: np.empty(v[0], dtype=np.int8)[slice(*v[1]), slice(*v[2])].shape),
+    lambda v: 'k9_slice shape=%s s0=%s s1=%s' % (fmt(v[0]), G.fmtv(v[1]), G.fmtv(v[2])),
+    lambda rng: (lambda s: [s, _gen_slice1(rng, s[0]), _gen_slice1(rng, s[1])])(rshape(rng, 2, 2, emax=6, emin=2)),
+    fixed=[[[4, 5], [1, 3], [None, None, 2]], [[4, 5], [0, 4], [1, 5, 2]], [[3, 6], [None, 2], [2, None, 3]]])
+
+
+# ---- views / evaluations over the array kinds (operand k holds 1000*k + row-major flat id) ------------------------------
+def _arr(shape, pos):
+    return np.arange(int(np.prod(shape)), dtype=np.int64).reshape(shape) + 1000 * pos
+
+
+def _np_arr(f):
+    try:
+        a = np.asarray(f())
+    except Exception:
+        return 'nothing'
+    return 'ok shape=%s data=%s' % (fmt(a.shape), fmt(a.ravel()))
+
+
+def _vshape(rng, rmax=3, emax=3):
+    return rshape(rng, 1, rmax, emax=emax)
+
+
+def _none_or(v):
+    return 'None' if v is None else fmt(v)
+
+
+_tr = Ref(lambda v: _np_arr(lambda: np.transpose(_arr(v[0], 0), v[1])),
+          lambda v: 'k9v_transpose x=%s axes=%s' % (fmt(v[0]), _none_or(v[1])),
+          lambda rng: (lambda s: [s, None if rng.random() < 0.25 else _perm(rng, len(s))])(_vshape(rng)),
+          fixed=[[[2, 3], [1, 0]], [[2, 3, 2], [2, 0, 1]], [[2, 3], None]])
+REFS['v_transpose'] = _tr
+REFS['e_transpose'] = Ref(_tr.oracle, _tr.mreq, lambda rng: (lambda s: [s, _perm(rng, len(s))])(_vshape(rng)), fixed=[[[2, 3], [1, 0]], [[3, 2, 2], [1, 2, 0]]])
+
+
+def _gen_vreshape(rng):
+    while True:
+        s, d = _gen_reshape(rng)
+        if len(s) <= 3 and _np_shape(lambda: np.empty(s, dtype=np.int8).reshape(d).shape) != 'nothing':
+            return [s, d]
+
+
+REFS['v_reshape'] = Ref(lambda v: _np_arr(lambda: _arr(v[0], 0).reshape(v[1])),
+                        lambda v: 'k9v_reshape x=%s newshape=%s' % (fmt(v[0]), fmt(v[1])),
+                        _gen_vreshape, fixed=[[[2, 3], [3, 2]], [[2, 3, 2], [4, -1]]])
+_tile = Ref(lambda v: _np_arr(lambda: np.tile(_arr(v[0], 0), v[1])),
+            lambda v: 'k9v_tile x=%s reps=%s' % (fmt(v[0]), fmt(v[1])),
+            lambda rng: [_vshape(rng, 2, 3), [rng.randint(1, 2) for _ in range(rng.randint(1, 3))]],
+            fixed=[[[2, 3], [2, 1]], [[3], [2, 2]]])
+REFS['v_tile'] = _tile
+REFS['e_tile'] = Ref(_tile.oracle, _tile.mreq, _tile.gen, fixed=[[[2, 3], [1, 2]], [[2, 2], [2, 1, 1]]])
+
+
+def _gen_vadd(rng):
+    s = _vshape(rng)
+    t = _bpartner(rng, s)
+    while len(t) > 3 or len(t) == 0:
+        t = _bpartner(rng, s)
+    return [s, t] if rng.random() < 0.6 else [t, s]
+
+
+_add = Ref(lambda v: _np_arr(lambda: _arr(v[0], 0) + _arr(v[1], 1)),
+           lambda v: 'k9v_add x=%s y=%s' % (fmt(v[0]), fmt(v[1])),
+           _gen_vadd, fixed=[[[2, 3], [3]], [[2, 1, 2], [3, 1]]])
+REFS['v_add'] = _add
+REFS['e_add'] = Ref(_add.oracle, _add.mreq, _gen_vadd, fixed=[[[2, 3], [2, 1]], [[3], [2, 3]]])
+REFS['v_sum'] = Ref(lambda v: _np_arr(lambda: np.sum(_arr(v[0], 0), axis=v[1])),
+                    lambda v: 'k9v_sum x=%s axis=%d' % (fmt(v[0]), v[1]),
+                    lambda rng: (lambda s: [s, _gen_axis(rng, len(s), allow_none=False)])(rshape(rng, 2, 3, emax=3)),
+                    fixed=[[[2, 3], 1], [[2, 3, 2], 0], [[2, 3], -1]])
+
+
 # ------------------------------------------------------------------------------------------------
 # known findings: predicates over the INPUT CLASS of a case (operation, values, kinds, clipped bounds)
 # ------------------------------------------------------------------------------------------------
@@ -389,8 +471,8 @@ def parse_req(req):
         t = parts[an]
         if t == 'None':
             v = None
-        elif vt in ('L', 'I', 'A'):
-            v = [] if t == '[]' else [int(x) for x in t.split(',')]
+        elif vt in ('L', 'I', 'A', 'S'):
+            v = [] if t == '[]' else [None if x == 'N' else int(x) for x in t.split(',')]
         else:
             v = int(t)
         args[an] = v; argkind[an] = k
@@ -459,7 +541,31 @@ def kf_broadcast_clipped_one_with_slack(c):
     return False
 
 
+def kf_colmajor_clipped_shape(c):
+    """a column-major ndarray_t whose shape is a tuple of clipped integers with >= 2 axes: the offset functor reverses the
+    shape INTO the same tuple type, so extents are clamped to the bounds of the wrong axis and distinct indices alias"""
+    r = parse_req(c.req)
+    for an, k in r['argkind'].items():
+        if r['argtype'][an] == 'A' and k.startswith('ls_') and k.endswith('_col') and len(r['args'][an]) >= 2:
+            return True
+    return False
+
+
+def kf_eval_tile_fixed_buffer(c):
+    """eval(view::tile(x, reps)) where x has a fixed or bounded (hybrid) buffer but a non-constant shape and the tiling
+    enlarges the array: the result container inferred for the evaluation is too small / of the wrong rank"""
+    r = parse_req(c.req)
+    if r['op'] != 'e_tile':
+        return False
+    k = r['argkind']['x']
+    k = k[:-4] if k.endswith('_col') else k
+    grow = any(x > 1 for x in r['args']['reps'])
+    return grow and k in ('fs_fb', 'fs_hb', 'hs_fb', 'hs_hb', 'ds_fb', 'ds_hb', 'ls_fb', 'ls_hb')
+
+
 KNOWN_PREDICATES = {
+    'colmajor_clipped_shape': kf_colmajor_clipped_shape,
+    'eval_tile_fixed_buffer': kf_eval_tile_fixed_buffer,
     'remove_dims_runtime_keepdims': kf_remove_dims_runtime_keepdims,
     'normalize_axis_clipped_negative': kf_normalize_axis_clipped_negative,
     'reshape_clipped_bounds': kf_reshape_clipped_bounds,
@@ -483,16 +589,18 @@ def requests(tier, seed):
     if tier == 'quick':
         rng = random.Random(1234)      # the quick request sample is fixed
         for op, ref in REFS.items():
-            for v in ref.fixed:
+            view = G.OPS[op].level == 'view'
+            for v in (ref.fixed[:1] if view else ref.fixed):
                 out.append((op, v))
-            out.append((op, ref.gen(rng)))
+            if not view:
+                out.append((op, ref.gen(rng)))
     else:
         rng = random.Random(seed * 7919 + 17)
-        per = max(4, 400 // len(REFS))
         for op, ref in REFS.items():
+            view = G.OPS[op].level == 'view'
             for v in ref.fixed:
                 out.append((op, v))
-            for _ in range(per):
+            for _ in range(6 if view else 22):
                 out.append((op, ref.gen(rng)))
     seen = set(); res = []
     for op, v in out:
@@ -520,7 +628,13 @@ def assignments(op, vals, build, rng, tier, pins, todo_sigs):
     width = max(len(p) for p in per)
     for j in range(width):
         chosen.append(tuple(p[j % len(p)] for p in per))
-    nmix = 6 if tier == 'quick' else 10
+    if tier == 'quick' and o.level == 'view':
+        # compile-bound: the full array-kind diagonal of an op runs in ONE build (rotating), every 4th kind in the others
+        bi = sorted(G.BUILDS).index(build)
+        oi = sorted(G.OPS).index(op)
+        if (oi % len(G.BUILDS)) != bi:
+            chosen = chosen[(oi + bi) % 4::4]
+    nmix = (3 if o.level == 'view' else 6) if tier == 'quick' else 10
     if len(allk) > len(chosen):
         chosen += rng.sample(allk, min(nmix, len(allk)))
     out = []
@@ -540,7 +654,7 @@ def assignments(op, vals, build, rng, tier, pins, todo_sigs):
             ks, mode = parse_sig(s)
             if s in sup and ks in allk and (mode == 'rt' or G.cx_ok(op, vals, ks)):
                 take.append((ks, mode)); pend.remove(s)
-                if len(take) >= 40:
+                if len(take) >= (40 if o.level == 'view' else 120):
                     break
         for km in take:
             if km not in seen:
@@ -569,11 +683,20 @@ def plan(tier):
     for build in G.BUILDS:
         cases = []
         for op, vals, rid in reqs:
-            for kinds, mode in assignments(op, vals, build, rng, tier, pins, todo):
+            rrng = random.Random(seed * 104729 + 31 * rid + 5)      # same draw for the same request in every build
+            for kinds, mode in assignments(op, vals, build, rrng, tier, pins, todo):
                 cases.append(G.KCase(op, vals, kinds, mode, salt=rid % 6, rid=rid))
-        for j in range(0, len(cases), CASES_PER_TU):
-            name = 'k9_%s_%s_%02d' % (tier[0], build, j // CASES_PER_TU)
-            tus[name] = (build, cases[j:j + CASES_PER_TU])
+        # chunk by compile weight (a view case instantiates ~6x more than an index case)
+        chunk, w, n = [], 0, 0
+        for c in cases + [None]:
+            cw = 0 if c is None else (VIEW_WEIGHT if G.OPS[c.op].level == 'view' else 1)
+            if c is None or (chunk and w + cw > CASES_PER_TU):
+                if chunk:
+                    tus['k9_%s_%s_%02d' % (tier[0], build, n)] = (build, chunk)
+                    n += 1
+                chunk, w = [], 0
+            if c is not None:
+                chunk.append(c); w += cw
     _plan_cache[key] = (reqs, tus)
     return _plan_cache[key]
 
@@ -614,7 +737,7 @@ def harness_specs(tier):
         new = {}
         if binp is None:
             live = [c for c in cases if c.key not in stubs]
-            okc, bad = G.probe(live, build, name, repo=runner.REPO)
+            okc, bad = G.probe(live, build, name, repo=runner.REPO, subdir='chk')
             new = bad
             stubs |= set(bad)
             src = G.write_tu(name, cases, build, stubs)
@@ -632,12 +755,12 @@ def harness_specs(tier):
                 ce.setdefault(build, {}).update(new)
     with open(_ce_cache_path(), 'w') as f:
         json.dump(ce, f, indent=0, sort_keys=True)
-    for fn in os.listdir(G.GEN_DIR):
-        if fn.startswith('probe_'):
-            try:
-                os.remove(os.path.join(G.GEN_DIR, fn))
-            except OSError:
-                pass
+    chk = os.path.join(G.GEN_DIR, 'chk')
+    for fn in (os.listdir(chk) if os.path.isdir(chk) else []):
+        try:
+            os.remove(os.path.join(chk, fn))
+        except OSError:
+            pass
     return specs
 
 
@@ -678,6 +801,24 @@ def post(cases, tier):
                         (c.req.split(' build=')[1].split(' ')[0], c.req.split(' id=')[1].split(' ')[0]), '')))
     _stats['groups'] = len(groups)
     _stats['disagreeing_groups'] = len(bad)
+    # pinned combinations that no longer compile (and are not a compile-time refusal / a known finding)
+    known = runner.load_known(ID)
+    stopped = []
+    for c in cases:
+        if c.impl is None or not c.impl.startswith('compile-error') or c.oracle is None or same(c.impl, c.oracle):
+            continue
+        if any(KNOWN_PREDICATES.get(e.get('predicate'), lambda _c: False)(c) for e in known):
+            continue
+        r = parse_req(c.req)
+        stopped.append({'req': c.req, 'signature': G.sig(r['op'], r['kinds'], r['mode']), 'expected': c.oracle,
+                        'compiler_error': _compile_errors.get((r['build'], c.req.split(' id=')[1].split(' ')[0]), '')})
+    _stats['stopped_compiling'] = len(stopped)
+    if stopped:
+        sigs = sorted({(x['req'].split(' build=')[1].split(' ')[0], x['signature']) for x in stopped})
+        out.append(('kind-stopped-compiling',
+                    '%d pinned-supported kind combinations do not compile any more, e.g. %s %s: %s' % (
+                        len(sigs), sigs[0][0], sigs[0][1], stopped[0]['compiler_error'][:200]),
+                    {'cases': stopped[:40], 'signatures': ['%s %s' % x for x in sigs][:200]}, True))
     return out
 
 
